@@ -72,7 +72,11 @@ def main():
         for cid in checks:
             env = dict(os.environ, PYCPARSER_REPO=d, VERIF_EVIDENCE_DIR=os.path.join(d, "_evidence"))
             t0 = time.time()
-            p = sh([os.path.join(HERE, "check"), cid, "--tier", "quick"], cwd=HERE, env=env)
+            try:
+                p = sh([os.path.join(HERE, "check"), cid, "--tier", "quick"], cwd=HERE, env=env, timeout=2400)
+            except subprocess.TimeoutExpired:
+                meta["checks"][cid] = dict(exit=None, violations=0, wall_s=2400, first="", caught=False, harness_error="check did not finish within 40 minutes on the patched tree")
+                continue
             viol = [l for l in p.stdout.splitlines() if l.startswith("VIOLATION")]
             first = [l for l in p.stdout.splitlines() if l.startswith("violation ")][:1]
             detail = ""
